@@ -77,6 +77,10 @@ namespace sqf::runtime
         }
         void push_frame(sqf::runtime::frame frame)
         {
+            if (!frame.globals_selected() && !m_frames.empty())
+            { // The namespace chosen by an enclosing with-do stays in effect for nested scopes.
+                frame.globals_value_scope(m_frames.back().globals_value_scope());
+            }
             m_frames.push_back(frame);
             m_frames.back().value_stack_pos(m_values.size());
 #ifdef SQFVM_RUNTIME_VERIF
